@@ -68,6 +68,13 @@ def build_data(spec):
         elif kind == 'sorted_heavy':
             # heavy-tailed data in descending order
             z = 1e4 / (1 + i) ** 2
+        elif kind in ('int_first', 'int_float_mix'):
+            # numbers as JSON / CSV deliver them: 1000000 next to 1000000.25 - a plain Python int FIRST and floats after it, or ints
+            # and floats in any order (a choice of algorithm made from the first item's type meets the other type later)
+            z = r.gauss(0, 1)
+            if (i == 0) if kind == 'int_first' else (r.random() < 0.4):
+                xs.append(int(off) + int(round(sc * z)))
+                continue
         elif kind == 'top_binade':
             # finite values in the top binade of the double range with mixed signs (+-inf replaced by +-float max through
             # numpy.nan_to_num, float max used as a finite bound): every partial sum - and so every exact statistic of the
@@ -185,12 +192,12 @@ class C12(Check):
                    'min/max of an empty sequence with reduce=True emit None (pinned by the suite); mean of an empty sequence is outside the domain']
     ANCHORS = ['rxsci/math/sum.py', 'rxsci/math/mean.py', 'rxsci/math/min.py', 'rxsci/math/max.py', 'rxsci/math/variance.py',
                'rxsci/math/stddev.py', 'rxsci/math/formal/variance.py', 'rxsci/math/formal/stddev.py', 'rxsci/math/formal/__init__.py']
-    REQUIRED_TAGS = ['op=' + o for o in OPS] + ['plain', 'mux', 'group', 'km', 'n=0', 'n=1', 'n>=1000', 'n>1024', 'offset>=1e6', 'kind=np_int64', 'kind=np_int32', 'kind=outlier_first', 'kind=py_int_ns', 'kind=top_binade', 'groups-of-different-magnitudes']
+    REQUIRED_TAGS = ['op=' + o for o in OPS] + ['plain', 'mux', 'group', 'km', 'n=0', 'n=1', 'n>=1000', 'n>1024', 'offset>=1e6', 'kind=np_int64', 'kind=np_int32', 'kind=outlier_first', 'kind=py_int_ns', 'kind=int_first', 'kind=int_float_mix', 'kind=top_binade', 'groups-of-different-magnitudes']
     REQUIRED_OBSERVED = ['values_compared', 'stream_equals_reduce_checks']
 
     def generate(self, rng, tier, shard, nshards):
         ncases = 750 if tier == 'quick' else 10 ** 7
-        kinds = ['gauss', 'uniform', 'int', 'constant', 'alternating', 'outlier', 'small_ints', 'plateau', 'lattice', 'np_int64', 'np_int32', 'outlier_first', 'sorted_heavy', 'py_int_ns']
+        kinds = ['gauss', 'uniform', 'int', 'constant', 'alternating', 'outlier', 'small_ints', 'plateau', 'lattice', 'np_int64', 'np_int32', 'outlier_first', 'sorted_heavy', 'py_int_ns', 'int_first', 'int_float_mix']
         offsets = [0.0, 1.0, -1.0, 1e3, 1e6, -1e6, 1e9]
         scales = [1e-8, 1e-3, 1.0, 1.0, 1e3, 1e8]
         ns = [0, 1, 2, 3, 10, 100, 1100, 1000, 100, 2500] if tier == 'quick' else [0, 1, 2, 3, 10, 100, 1000, 1000, 2500, 10000]
